@@ -402,12 +402,14 @@ class C20(PropDef):
             "equality impls on equal and on differing operands) for TagType/TagTypeId, MemoryAreaType/MemoryAreaTypeId and "
             "the ELF section-type classification (through a real ElfSectionsTag), over blocks of 2^20 consecutive u32 values: "
             "quick = all boundary blocks + 48 seeded random blocks, thorough = all 4096 blocks (every u32); FBT: all 256 "
-            "framebuffer type bytes through FramebufferTag::buffer_type; MAGIC: the two exported constants. "
+            "framebuffer type bytes through FramebufferTag::buffer_type, each with colour-information fields of 0, 1, 2, 5, 6, 7, 8 bytes; MAGIC: the two exported constants. "
             "Non-trivial = distinct FBT/MAGIC cases (blocks are counted in evaluations).")
     assumptions = ["FNV-1a-64 block hashes: a collision could hide a single differing value"]
 
     def gen(self, tier, rng):
-        return ["MAGIC"] + ["FBT %d" % b for b in range(256)]
+        # all 256 type bytes x colour-information fields of every relevant length (none, 1, 2, 5, 6, 7 bytes and 8)
+        infos = ["-", "01", "0100", "0100030405", "010003040506", "01000304050607", "0100030405060708"]
+        return ["MAGIC"] + ["FBT %d" % b for b in range(256)] + ["FBT %d %s" % (b, i) for b in range(256) for i in infos]
 
     def block_plan(self, tier, rng):
         bl = block_list(tier, rng)
@@ -675,11 +677,13 @@ class C05(SweepProp):
     rule = ("SWEEP: every tag kind with every adversarial declared size {0,7,8,9,fixed-1,fixed,fixed+1,size-1,size+1,occupied-7.."
             "occupied+8,size+24,2^32-1}, alone and between random neighbour tags (distinguishable bytes in padding and next tag), "
             "framebuffer palettes with colour counts up to 65535 against 0..9 present bytes; each case run with two poison "
-            "fills outside the region; HSWEEP: information-request tags of every size 0..40. Non-trivial = distinct cases that load.")
+            "fills outside the region; EFI memory maps with every descriptor size 0..65 x map lengths (every descriptor handed out must lie "
+            "inside the map); HSWEEP: information-request tags of every size 0..40. Non-trivial = distinct cases that load.")
 
     def gen(self, tier, rng):
         return (_mbi.gen_sizes(rng, 1 if tier == "quick" else 4) + _mbi.gen_fb(rng) + _mbi.gen_strings(rng, 2, 40) +
-                _mbi.gen_wellformed(rng, 30) + _mbi.gen_scale(rng) + _mbi.gen_inforeq_sizes(rng) + _mbi.gen_elf(rng, "quick"))
+                _mbi.gen_wellformed(rng, 30) + _mbi.gen_scale(rng) + _mbi.gen_inforeq_sizes(rng) + _mbi.gen_elf(rng, "quick") +
+                _mbi.gen_efi(rng, tier))
 
     def oracle(self, case, impl, config):
         if case.startswith("HSWEEP"):
